@@ -468,3 +468,71 @@ example : ∃ s ts, PR.prE .ORACLE ex1 = .ok s ∧ Lex.lex Gen.cfgS (dialectPre 
   C02.tparse3_text .ORACLE ex1 (by decide) (leafE3_of_B _ _ (by decide +kernel)) (C01.dialectPre_id _ (by decide) (by decide) _)
 
 end C03
+
+/-! ## the old text-level link of the operator fragment (`Props/C01T.lean`) as an instance -/
+namespace LexLink
+
+/-- on the operator fragment the two mirrors agree and the old leaf hypotheses are the new ones -/
+theorem frag_bridge (d : Gen.D) : ∀ (n : Nat) (e : Expr), TP.sz e ≤ n → Frag d e = true → Leaf d e →
+    prE3L d e = prEL d e ∧ On (leafOK d) (leavesE e) := by
+  intro n
+  induction n with
+  | zero => intro e he; cases e <;> simp [TP.sz] at he
+  | succ n ih =>
+    intro e he hf hl
+    cases e <;> simp only [TP.sz] at he <;> (try simp only [Frag, Bool.and_eq_true] at hf) <;> (try simp only [Leaf] at hl) <;>
+      try (cases hf; done)
+    case column t c =>
+      cases t with
+      | some t => simp [Frag] at hf
+      | none => exact ⟨rfl, by simpa [leavesE, leafOK] using hl⟩
+    case literal v => exact ⟨rfl, by simpa [leavesE, leafOK] using hl⟩
+    case unary o y =>
+      obtain ⟨h1, h2⟩ := ih y (by omega) hf.2 hl
+      exact ⟨by simp only [prE3L, prEL, h1], by simpa [leavesE] using h2⟩
+    case compute l o r =>
+      obtain ⟨h1, h2⟩ := ih l (by omega) hf.1.2 hl.1
+      obtain ⟨h3, h4⟩ := ih r (by omega) hf.2 hl.2
+      exact ⟨by simp only [prE3L, prEL, h1, h3], by simp only [leavesE, on_append]; exact ⟨h2, h4⟩⟩
+    case kw k n0 l r =>
+      obtain ⟨h1, h2⟩ := ih l (by omega) hf.1.2 hl.1
+      obtain ⟨h3, h4⟩ := ih r (by omega) hf.2 hl.2
+      exact ⟨by simp only [prE3L, prEL, h1, h3], by simp only [leavesE, on_append]; exact ⟨h2, h4⟩⟩
+    case between n0 b f t =>
+      obtain ⟨h1, h2⟩ := ih b (by omega) hf.1.1 hl.1
+      obtain ⟨h3, h4⟩ := ih f (by omega) hf.1.2 hl.2.1
+      obtain ⟨h5, h6⟩ := ih t (by omega) hf.2 hl.2.2
+      exact ⟨by simp only [prE3L, prEL, h1, h3, h5], by simp only [leavesE, on_append]; exact ⟨h2, h4, h6⟩⟩
+    case compare o l r =>
+      obtain ⟨h1, h2⟩ := ih l (by omega) hf.1.2 hl.1
+      obtain ⟨h3, h4⟩ := ih r (by omega) hf.2 hl.2
+      exact ⟨by simp only [prE3L, prEL, h1, h3], by simp only [leavesE, on_append]; exact ⟨h2, h4⟩⟩
+    case not_ y =>
+      obtain ⟨h1, h2⟩ := ih y (by omega) hf hl
+      exact ⟨by simp only [prE3L, prEL, h1], by simpa [leavesE] using h2⟩
+    case and_ l r =>
+      obtain ⟨h1, h2⟩ := ih l (by omega) hf.1 hl.1
+      obtain ⟨h3, h4⟩ := ih r (by omega) hf.2 hl.2
+      exact ⟨by simp only [prE3L, prEL, h1, h3], by simp only [leavesE, on_append]; exact ⟨h2, h4⟩⟩
+    case xor l r =>
+      obtain ⟨h1, h2⟩ := ih l (by omega) hf.1 hl.1
+      obtain ⟨h3, h4⟩ := ih r (by omega) hf.2 hl.2
+      exact ⟨by simp only [prE3L, prEL, h1, h3], by simp only [leavesE, on_append]; exact ⟨h2, h4⟩⟩
+    case or_ l r =>
+      obtain ⟨h1, h2⟩ := ih l (by omega) hf.1 hl.1
+      obtain ⟨h3, h4⟩ := ih r (by omega) hf.2 hl.2
+      exact ⟨by simp only [prE3L, prEL, h1, h3], by simp only [leavesE, on_append]; exact ⟨h2, h4⟩⟩
+
+end LexLink
+
+namespace C01
+/-- `C01.lex_prE` (Props/C01T.lean: the lexer link of the operator fragment, with ITS mirror `prEL` and ITS leaf hypotheses `Leaf`) as an
+instance of the link of the nested fragment -/
+theorem lex_prE_instance (d : Gen.D) (e : Expr) (hf : Frag d e = true) (hl : Leaf d e) :
+    ∃ s : String, PR.prE d e = .ok s ∧ s.toList = prEL d e ∧ Lex.lex Gen.cfgS s.toList = .ok (toksE d noX e) := by
+  obtain ⟨hm, hlv⟩ := frag_bridge d (TP.sz e) e (Nat.le_refl _) hf hl
+  have h2 := TP2.frag_sub d (TP.sz e) e (Nat.le_refl _) hf
+  obtain ⟨h3, ht⟩ := frag2_sub_all d noX e h2
+  obtain ⟨s, a, b, c⟩ := C02.lex_prE3 d e h3 hlv
+  exact ⟨s, a, by rw [b, hm], by rw [c, ht, TP2.toksE2_eq d noX (TP.sz e) e (Nat.le_refl _) hf]⟩
+end C01
